@@ -43,6 +43,12 @@ type c15Op struct {
 	Strict bool      `json:"strict"`
 	Excl   int       `json:"excl"` // -1 none
 	Draws  int       `json:"draws"`
+	Hook   *c15Hook  `json:"hook,omitempty"` // policy op only: run Ops at yield point At inside SetSelectionPolicy
+}
+
+type c15Hook struct {
+	At  int     `json:"at"` // 1..6: after that many per-set switches; 7: after the loop, before the state store
+	Ops []c15Op `json:"ops"`
 }
 
 type c15Case struct {
@@ -51,6 +57,8 @@ type c15Case struct {
 	Tol  int64     `json:"tol"`
 	P0   c15Policy `json:"p0"`
 	Ops  []c15Op   `json:"ops"`
+	// Foreign: an extra dialer, numbered n, exists but is NOT a member of the group; operations may name it
+	Foreign bool `json:"foreign,omitempty"`
 }
 
 type c15Row struct { // one (dialer, type) cell of the dialer-side store
@@ -85,6 +93,12 @@ type c15Step struct {
 	Cbs   [][2]int   `json:"cbs"`
 	Sels  []c15Sel   `json:"sels"`
 	Samp  []int64    `json:"samp,omitempty"`
+	// policy op with hook: the yield points passed in order, the dump of the set switched at each point < 7,
+	// and the steps of the operations run at point Hook.At
+	Points     []int     `json:"points,omitempty"`
+	PointDumps []c15Dump `json:"pointdumps,omitempty"`
+	Inner      []c15Step `json:"inner,omitempty"`
+	Panic      string    `json:"panic,omitempty"`
 }
 
 type c15Result struct {
@@ -155,7 +169,7 @@ func (w *c15World) row(d, t int) c15Row {
 
 func (w *c15World) storeDiff() []c15Row {
 	out := []c15Row{}
-	for d := 0; d < w.n; d++ {
+	for d := 0; d < len(w.dialers); d++ {
 		for t := 0; t < 6; t++ {
 			r := w.row(d, t)
 			k := [2]int{d, t}
@@ -182,7 +196,7 @@ func (w *c15World) dump(t int) (c15Dump, bool) {
 	for i, e := range sd.Entries {
 		d.Entries = append(d.Entries, [2]int64{int64(w.id[e]), int64(sd.Lats[i])})
 	}
-	for i, dl := range w.dialers {
+	for i, dl := range w.dialers[:w.n] {
 		idx, ok := sd.Index[dl]
 		if !ok {
 			idx = -99
@@ -192,7 +206,7 @@ func (w *c15World) dump(t int) (c15Dump, bool) {
 			d.Lat[i] = [2]int64{1, int64(l)}
 		}
 	}
-	if len(sd.Index) != w.n {
+	if len(sd.Index) != w.n && len(w.dialers) == w.n {
 		d.Idx = append(d.Idx, -98) // foreign keys in dialerToIndex
 	}
 	if sd.Best != nil {
@@ -228,6 +242,9 @@ func c15ErrClass(err error) string {
 
 var c15All = []int{0, 1, 2, 3, 4, 5}
 
+// uniqueAliveDialerSets order (aliveDialerSets[0..7]): tcp4 tcp6 dns4 dns6 udp4 udp6, as harness type numbers
+var c15SwitchOrder = [6]int{2, 3, 0, 1, 4, 5}
+
 func c15Run(cs c15Case) (res c15Result) {
 	defer func() {
 		if r := recover(); r != nil {
@@ -246,12 +263,18 @@ func c15Run(cs c15Case) (res c15Result) {
 		w.id[d] = i
 		annos[i] = &dialer.Annotation{AddLatency: time.Duration(cs.Offs[i])}
 	}
+	members := w.dialers
+	if cs.Foreign {
+		d := dialer.NewDialer(c15Noop{}, opt, dialer.InstanceOption{DisableCheck: true}, &dialer.Property{})
+		w.dialers = append(append([]*dialer.Dialer{}, members...), d)
+		w.id[d] = cs.N
+	}
 	defer func() {
 		for _, d := range w.dialers {
 			_ = d.Close()
 		}
 	}()
-	w.group = NewDialerGroup(opt, "g", w.dialers, annos, c15Pol(cs.P0), func(alive bool, nt *dialer.NetworkType, isInit bool) {
+	w.group = NewDialerGroup(opt, "g", members, annos, c15Pol(cs.P0), func(alive bool, nt *dialer.NetworkType, isInit bool) {
 		if isInit {
 			return
 		}
@@ -271,7 +294,8 @@ func c15Run(cs c15Case) (res c15Result) {
 		return c
 	}
 	res.Init = c15Step{Store: w.storeDiff(), Dumps: w.dumps(c15All), Cbs: take(), Sels: []c15Sel{}}
-	for _, op := range cs.Ops {
+	var exec func(op c15Op) c15Step
+	exec = func(op c15Op) c15Step {
 		st := c15Step{Sels: []c15Sel{}}
 		var touched []int
 		switch op.K {
@@ -297,8 +321,58 @@ func c15Run(cs c15Case) (res c15Result) {
 			nt := c15Types[op.T]
 			w.dialers[op.D].MustGetLatencies10(&nt).AppendLatency(time.Duration(op.Lat))
 		case "policy":
-			w.group.SetSelectionPolicy(c15Pol(op.Pol))
+			if op.Hook != nil {
+				order := c15SwitchOrder
+				VerifC15SwitchHook = func(point int) {
+					st.Points = append(st.Points, point)
+					if point >= 1 && point <= 6 {
+						if d, ok := w.dump(order[point-1]); ok {
+							st.PointDumps = append(st.PointDumps, d)
+						}
+					}
+					if point == op.Hook.At {
+						for _, in := range op.Hook.Ops {
+							if in.K == "policy" {
+								panic("nested policy switch would deadlock")
+							}
+							st.Inner = append(st.Inner, exec(in))
+						}
+					}
+				}
+			}
+			func() {
+				defer func() { VerifC15SwitchHook = nil }()
+				w.group.SetSelectionPolicy(c15Pol(op.Pol))
+			}()
 			touched = c15All
+		case "switchset": // one shared set executes SetSelectionPolicy: the first half of the group's switch, by hand
+			nt := c15Types[op.T]
+			if set := w.group.MustGetAliveDialerSet(&nt); set != nil {
+				set.SetSelectionPolicy(consts.DialerSelectionPolicy(op.Pol.P))
+			}
+			touched = []int{op.T}
+		case "getmin", "getrand": // direct reads of one set
+			nt := c15Types[op.T]
+			var excl *dialer.Dialer
+			if op.Excl >= 0 {
+				excl = w.dialers[op.Excl]
+			}
+			if set := w.group.MustGetAliveDialerSet(&nt); set != nil {
+				for i := 0; i < op.Draws; i++ {
+					var d *dialer.Dialer
+					var lat time.Duration
+					if op.K == "getmin" {
+						d, lat = set.GetMinLatency(excl)
+					} else {
+						d = set.GetRandExcluded(excl)
+					}
+					s := c15Sel{D: -1, Lat: int64(lat), Sel: -1}
+					if d != nil {
+						s.D = w.id[d]
+					}
+					st.Sels = append(st.Sels, s)
+				}
+			}
 		case "select":
 			nt := &dialer.NetworkType{L4Proto: consts.L4ProtoStr(op.L4), IpVersion: consts.IpVersionStr(fmt.Sprint(op.V)), IsDns: op.IsDns, UdpHealthDomain: dialer.UdpHealthDomain(op.UDom)}
 			var excl *dialer.Dialer
@@ -322,6 +396,24 @@ func c15Run(cs c15Case) (res c15Result) {
 		st.Store = w.storeDiff()
 		st.Dumps = w.dumps(touched)
 		st.Cbs = take()
+		return st
+	}
+	for _, op := range cs.Ops {
+		st, pmsg := func() (st c15Step, pmsg string) {
+			defer func() {
+				if r := recover(); r != nil {
+					pmsg = fmt.Sprint(r)
+				}
+			}()
+			return exec(op), ""
+		}()
+		if pmsg != "" {
+			// the operation panicked: report it as the last step (the sets may be half-updated)
+			st = c15Step{Sels: []c15Sel{}, Store: []c15Row{}, Dumps: []c15Dump{}, Cbs: [][2]int{}, Panic: pmsg}
+			w.cbs = nil
+			res.Steps = append(res.Steps, st)
+			break
+		}
 		res.Steps = append(res.Steps, st)
 	}
 	return res
